@@ -142,6 +142,50 @@ def find_function(src, name):
     raise ParseError("function %s not found" % name)
 
 
+def list_functions(src):
+    """[(name, body_text)] for every function definition at top level."""
+    out = []
+    i, n = 0, len(src)
+    depth = 0
+    while i < n:
+        c = src[i]
+        if c == '"' or c == "'":
+            j = i + 1
+            while j < n and src[j] != c:
+                if src[j] == "\\":
+                    j += 1
+                j += 1
+            i = j + 1
+            continue
+        if c == "{":
+            # is this the body of a function?  look back for `name ( ... )`
+            k = i - 1
+            while k >= 0 and src[k] in " \t\n":
+                k -= 1
+            if k >= 0 and src[k] == ")":
+                d = 0
+                j = k
+                while j >= 0:
+                    if src[j] == ")":
+                        d += 1
+                    elif src[j] == "(":
+                        d -= 1
+                        if d == 0:
+                            break
+                    j -= 1
+                m = re.search(r"(\w+)\s*$", src[:j])
+                e = match_brace(src, i)
+                if m and m.group(1) not in ("if", "while", "for", "switch"):
+                    out.append((m.group(1), src[i + 1:e]))
+                i = e + 1
+                continue
+            else:
+                i = match_brace(src, i) + 1
+                continue
+        i += 1
+    return out
+
+
 # ------------------------------------------------------------------ tokens
 
 TOK = re.compile(r"""
